@@ -2,6 +2,7 @@ package simrt
 
 import (
 	"bufio"
+	"encoding/json"
 	"bytes"
 	"context"
 	"errors"
@@ -237,6 +238,10 @@ type Conn struct {
 	srvCancel  context.CancelFunc
 	faultFired []string
 	sendClock  vclock
+	tsFid      json.Number
+	tsClient   bool
+	TSUnrouted bool
+	TSMatches  int
 	respClock  vclock
 
 	// server-side observations
